@@ -390,7 +390,7 @@ func c01Explore(c *sup.Ctx, name string, seeds []*poolToken, u *c01Universe, dep
 							w.Mark(0, "")
 						}
 						w.SetCase(c01Case{Seed: ns.seed, Path: ns.path, Hex: fmt.Sprintf("%x", ser)})
-					sup.Guard(w, fmt.Sprintf("%s %v", ns.seed, ns.path), func() { c01Verify(w, u, ns, ser) })
+						sup.Guard(w, fmt.Sprintf("%s %v", ns.seed, ns.path), func() { c01Verify(w, u, ns, ser) })
 						if keep {
 							local = append(local, ns)
 						}
